@@ -404,50 +404,171 @@ fn run_history(c: &mut Ctx, m: &'static Merchant, other: &'static Merchant, name
     c.sample(json!({"history": r.name, "initial": [cust0.to_string(), merch0.to_string()], "trail": r.trail.iter().take(40).collect::<Vec<_>>()}));
 }
 
-/// the all-identity signature is what the merchant emits when its randomiser is zero: drive the
-/// real merchant with a scripted RNG and check what reaches the customer
+/// The all-identity signature is what the merchant's signer emits when its randomiser is zero.
+/// Drive the real merchant with a scripted RNG at each of its four signing calls and hand the
+/// resulting *in-memory* reply objects to the customer (on the wire such a reply does not even
+/// decode; both routes are observed).
 fn identity_through_api(c: &mut Ctx, m: &'static Merchant) {
+    use zkabacus_crypto::{customer::Requested, Context, CustomerBalance, MerchantBalance};
     c.case("identity-signature-through-api", |c| {
         let mut rng = c.rng("identity");
+        let is_identity = |b: &[u8]| b.len() == 96 && b[..48] == crate::wire::g1_identity_bytes()[..];
+        // find, by dry run, the 64-byte draw of a merchant call and return a scripted RNG zeroing it
+        let zeroed = |call: &dyn Fn(&mut ScriptRng)| -> Vec<ScriptRng> {
+            let mut dry = ScriptRng::new([9u8; 32]);
+            call(&mut dry);
+            dry.draws_of_len(64)
+                .into_iter()
+                .map(|d| {
+                    let mut r = ScriptRng::new([9u8; 32]);
+                    r.inject(d, vec![0u8; 64]);
+                    r
+                })
+                .collect()
+        };
+        let ctx = Context::new(b"identity");
+        let cb = CustomerBalance::try_new(5).unwrap();
+        let mb = MerchantBalance::try_new(6).unwrap();
+        // --- establish: initialize and activate
         let cid = new_channel_id(m, &mut rng, b"m", b"c");
-        let (mut s, proof) = match Sess::request(m, &mut rng, cid, 5, 5, b"id") {
-            Ok(x) => x,
+        let mk_req = |rng: &mut rand_chacha::ChaCha20Rng| Requested::new(rng, &m.ccfg, cid, mb, cb, &ctx);
+        let (req0, proof0) = mk_req(&mut rng.clone());
+        let proof_bytes = enc(&proof0);
+        drop(req0);
+        let scripted = zeroed(&|r| {
+            let _ = m.cfg.initialize(r, &cid, cb, mb, dec(&proof_bytes).unwrap(), &ctx);
+        });
+        c.note("merchant_initialize_scalar_draws", json!(scripted.len()));
+        for mut r in scripted {
+            let (req, proof) = mk_req(&mut rng.clone());
+            c.eval();
+            c.distinct("identity/initialize");
+            let before = enc(&req);
+            let Ok(Some((sig, _bs))) = guard(|| m.cfg.initialize(&mut r, &cid, cb, mb, proof, &ctx)) else { continue };
+            let wire = enc(&sig);
+            if !is_identity(&wire) {
+                continue;
+            }
+            c.count("merchant_emitted_identity_signature[initialize]", 1);
+            if dec::<zkabacus_crypto::ClosingSignature>(&wire).is_ok() {
+                c.violation("C03 identity-reply-decodes reply=closing-signature", json!({}));
+            }
+            match req.complete(sig, &m.ccfg) {
+                Ok(_) => c.violation("C03 invalid-reply-accepted stage=requested fault=identity-in-memory", json!({"route": "initialize with zero randomiser, reply object handed over in memory"})),
+                Err(back) => {
+                    if enc(&back) != before {
+                        c.violation("C03 refusal-changed-state stage=requested fault=identity-in-memory", json!({}));
+                    }
+                    c.count("identity_refused[requested]", 1);
+                }
+            }
+        }
+        // --- the other three reply points, on a real session
+        let mut s = match Sess::open(m, &mut rng, 50, 60, b"identity2") {
+            Ok(s) => s,
             Err(e) => return c.inconclusive(&e),
         };
-        // dry run to find the 64-byte draw of the signer, then inject zeros there
-        let mut dry = ScriptRng::new([7u8; 32]);
-        let _ = s.m_initialize(&mut dry, 5, 5, &proof, b"id");
-        let draws = dry.draws_of_len(64);
-        c.note("merchant_initialize_scalar_draws", json!(draws.len()));
-        for d in draws {
-            let mut scripted = ScriptRng::new([7u8; 32]);
-            scripted.inject(d, vec![0u8; 64]);
-            c.eval();
-            c.distinct(&format!("identity/draw{}", d));
-            let before = s.stage.bytes();
-            let r = guard(|| s.m_initialize(&mut scripted, 5, 5, &proof, b"id"));
-            match r {
-                Ok(Ok(Some(sig))) => {
-                    let is_identity = sig[..48] == crate::wire::g1_identity_bytes()[..];
-                    c.count(if is_identity { "merchant_emitted_identity_signature" } else { "merchant_emitted_regular_signature" }, 1);
-                    match s.c_complete(&sig) {
-                        Ok(true) if is_identity => c.violation("C03 invalid-reply-accepted stage=requested fault=identity-through-api", json!({})),
-                        Ok(true) => {
-                            // a regular signature was accepted: restart the session for the next draw
-                            return;
-                        }
-                        _ => {
-                            if s.stage.bytes() != before {
-                                c.violation("C03 refusal-changed-state stage=requested fault=identity-through-api", json!({}));
+        // inactive/activate: needs a fresh verified blinded state per attempt
+        {
+            let cid2 = new_channel_id(m, &mut rng, b"m", b"c");
+            let (req, proof) = Requested::new(&mut rng, &m.ccfg, cid2, mb, cb, &ctx);
+            if let Some((sig, bs)) = m.cfg.initialize(&mut rng, &cid2, cb, mb, proof, &ctx) {
+                if let Ok(inactive) = req.complete(sig, &m.ccfg) {
+                    let mut dry = ScriptRng::new([9u8; 32]);
+                    // activate consumes the blinded state: find the draw on a second, identical establishment
+                    let (req_b, proof_b) = Requested::new(&mut rng, &m.ccfg, cid2, mb, cb, &ctx);
+                    if let Some((_s2, bs2)) = m.cfg.initialize(&mut rng, &cid2, cb, mb, proof_b, &ctx) {
+                        let _ = m.cfg.activate(&mut dry, bs2);
+                    }
+                    drop(req_b);
+                    if let Some(d) = dry.draws_of_len(64).first().copied() {
+                        let mut r = ScriptRng::new([9u8; 32]);
+                        r.inject(d, vec![0u8; 64]);
+                        let tok = m.cfg.activate(&mut r, bs);
+                        c.eval();
+                        c.distinct("identity/activate");
+                        if is_identity(&enc(&tok)) {
+                            c.count("merchant_emitted_identity_signature[activate]", 1);
+                            let before = enc(&inactive);
+                            match inactive.activate(tok, &m.ccfg) {
+                                Ok(_) => c.violation("C03 invalid-reply-accepted stage=inactive fault=identity-in-memory", json!({})),
+                                Err(back) => {
+                                    if enc(&back) != before {
+                                        c.violation("C03 refusal-changed-state stage=inactive fault=identity-in-memory", json!({}));
+                                    }
+                                    c.count("identity_refused[inactive]", 1);
+                                }
                             }
                         }
                     }
                 }
-                Ok(_) => {}
-                Err(p) => c.count(&format!("merchant_panicked_under_zero_randomiser[{}]", repo_rel(&p.location)), 1),
             }
         }
-        let _ = enc(&0u8);
+        // started/lock and locked/unlock
+        let pa = amount(7).unwrap();
+        let (nonce, proof) = match s.c_start(&mut rng, pa, b"identity2") {
+            Ok(Ok(x)) => x,
+            _ => return c.inconclusive("C03: start refused"),
+        };
+        let nonce_v: zkabacus_crypto::Nonce = dec(&nonce).unwrap();
+        let pctx = Context::new(b"identity2");
+        let scripted = zeroed(&|r| {
+            let _ = m.cfg.allow_payment(r, pa, &nonce_v, dec(&proof).unwrap(), &pctx);
+        });
+        for mut r in scripted {
+            c.eval();
+            c.distinct("identity/allow_payment");
+            let Ok(Some((_unrev, sig))) = guard(|| m.cfg.allow_payment(&mut r, pa, &nonce_v, dec(&proof).unwrap(), &pctx)) else { continue };
+            if !is_identity(&enc(&sig)) {
+                continue;
+            }
+            c.count("merchant_emitted_identity_signature[allow_payment]", 1);
+            let Stage::Started(st) = std::mem::replace(&mut s.stage, Stage::None) else { return c.inconclusive("C03: not started") };
+            let before = enc(&st);
+            match st.lock(sig, &m.ccfg) {
+                Ok((_l, _msg)) => {
+                    return c.violation("C03 invalid-reply-accepted stage=started fault=identity-in-memory", json!({"lock_message_released": true}));
+                }
+                Err(back) => {
+                    if enc(&back) != before {
+                        c.violation("C03 refusal-changed-state stage=started fault=identity-in-memory", json!({}));
+                    }
+                    c.count("identity_refused[started]", 1);
+                    s.stage = Stage::Started(back);
+                }
+            }
+        }
+        // honest lock, then complete_payment under a zero randomiser
+        let sig = match s.m_allow(&mut rng, pa, &nonce, &proof, b"identity2") {
+            Ok(Some(x)) => x,
+            _ => return c.inconclusive("C03: honest pay proof refused"),
+        };
+        let Ok(Some((pair, bf))) = s.c_lock(&sig) else { return c.inconclusive("C03: honest lock refused") };
+        let pair_v: RevocationPair = dec(&pair).unwrap();
+        let bf_v: zkabacus_crypto::revlock::RevocationLockBlindingFactor = dec(&bf).unwrap();
+        if let Some(unrev) = s.m_unrevoked.take() {
+            // complete_payment draws exactly one scalar (the signer's randomiser)
+            let mut r = ScriptRng::new([9u8; 32]);
+            r.inject(0, vec![0u8; 64]);
+            c.eval();
+            c.distinct("identity/complete_payment");
+            if let Ok(tok) = unrev.complete_payment(&mut r, &pair_v, &bf_v) {
+                if is_identity(&enc(&tok)) {
+                    c.count("merchant_emitted_identity_signature[complete_payment]", 1);
+                    let Stage::Locked(l) = std::mem::replace(&mut s.stage, Stage::None) else { return c.inconclusive("C03: not locked") };
+                    let before = enc(&l);
+                    match l.unlock(tok, &m.ccfg) {
+                        Ok(_) => c.violation("C03 invalid-reply-accepted stage=locked fault=identity-in-memory", json!({})),
+                        Err(back) => {
+                            if enc(&back) != before {
+                                c.violation("C03 refusal-changed-state stage=locked fault=identity-in-memory", json!({}));
+                            }
+                            c.count("identity_refused[locked]", 1);
+                        }
+                    }
+                }
+            }
+        }
         let _: Option<G1Affine> = None;
     });
 }
